@@ -22,7 +22,7 @@ class TheCheck(Check):
     # parser half: theorems live in Props/C17Parsers.lean (imported by Props/C17.lean)
     also_audit = tuple("Qlibc.Props.C17Parsers." + n for n in (
         "ini_markers", "aconf_tokenize_safe", "aconf_parse_total", "iniExpand_terminates", "iniParse_total",
-        "ini_include_consts", "iniParseFile_total"))
+        "ini_include_consts", "iniParseFile_total", "fmt_total", "fmt_dup_total", "qfile_read_total", "qfile_read_taken"))
     module = "encode"
     harness = "encode"
     rule = ("arbitrary NUL-terminated inputs in exactly sized heap buffers (ASan+UBSan) fed to the in-place decoders, "
@@ -114,7 +114,7 @@ class TheCheck(Check):
 
     def judge(self, op, line):
         w, f = op.split(), line.split()
-        if w[0] in ("ini", "inif", "ac"):
+        if w[0] in ("ini", "inif", "ac", "acp", "fread"):
             return c17_parsers.parser_judge(op, line) if c17_parsers is not None else None
         if line.startswith("fault"):
             return "%s on input %s" % (line, op)
@@ -127,6 +127,6 @@ class TheCheck(Check):
         return None
 
     def classify(self, op, detail):
-        if c17_parsers is not None and op.split()[0] in ("ini", "inif", "ac"):
+        if c17_parsers is not None and op.split()[0] in ("ini", "inif", "ac", "acp", "fread"):
             return c17_parsers.parser_classify(op, detail)
         return "qencode:" + op.split()[0]
